@@ -16,7 +16,7 @@ fn report(vios: &mut VioSet, e: &Enc, source: Source, repl: bool, units: &[u32],
         .set("source", J::s(if source == Source::Utf8 { "utf8" } else { "utf16" }))
         .set("sink", J::s("slice"))
         .set("repl", J::Bool(repl))
-        .set("calls", J::Arr(vec![crate::xenc::ECallRec { units: units.to_vec(), cap: units.len() * 12 + 64, last: true, fill: 0, dalign: 0, fresh: true }.to_json()]))
+        .set("calls", J::Arr(vec![crate::xenc::ECallRec { units: units.to_vec(), cap: units.len() * 12 + 64, last: true, fill: 0, dalign: 0, fresh: true, method: 2 }.to_json()]))
         .set("detail", J::obj().set("message", J::s(&msg)));
     if vios.wants("C03", "single-vs-reference") {
         vios.add(Violation { prop: "C03".into(), kind: "single-vs-reference".into(), msg, replay: j });
